@@ -93,3 +93,16 @@ Theorem C02_agreement_play_fresh :
   /\ a_uri w' = Some (trk x) /\ a_state w' = Playing /\ World.tl w' = World.tl w.
 Proof. exact play_fresh_agreement. Qed.
 Print Assumptions C02_agreement_play_fresh.
+
+(* ---- A recorded known finding as a kernel-checked fact about the model: seek() from the
+   stopped state with a current track leaves the core reporting `stopped` while the audio
+   layer plays the track (play() is started, then _change(current, STOPPED) re-arms it). *)
+Example C02_refuted_agreement_seek_from_stopped :
+  let w := run_world shuf_concrete 400 (init_world 50 [Playable] [Some 1000] [] None None)
+             [Add [0] None; Play None; Deliver; Deliver; Deliver; Deliver; Stop; Deliver; Deliver] in
+  (pstate w = Stopped /\ option_map tlid (current w) = Some 1 /\ queue w = [] /\ a_uri w = None /\ a_state w = Stopped)
+  /\ let w' := run_world shuf_concrete 400 w
+                 [Seek 100; Deliver; Deliver; Deliver; Deliver; Deliver; Deliver; Deliver; Deliver] in
+     pstate w' = Stopped /\ queue w' = [] /\ a_uri w' = Some 0 /\ a_state w' = Playing.
+Proof. vm_compute. repeat split; reflexivity. Qed.
+Print Assumptions C02_refuted_agreement_seek_from_stopped.
